@@ -70,13 +70,19 @@ class Address:
         if len(args) == 1:
             self.decode_address(args[0])
         elif len(args) == 2:
+            net = args[0]
+            if not isinstance(net, int):
+                raise TypeError("integer network required")
+            if (net < 0) or (net >= 65535):
+                raise ValueError("network out of range")
+
             self.decode_address(args[1])
             if self.addrType == Address.localStationAddr:
                 self.addrType = Address.remoteStationAddr
-                self.addrNet = args[0]
+                self.addrNet = net
             elif self.addrType == Address.localBroadcastAddr:
                 self.addrType = Address.remoteBroadcastAddr
-                self.addrNet = args[0]
+                self.addrNet = net
             else:
                 raise ValueError("unrecognized address ctor form")
 
